@@ -72,7 +72,7 @@ def js_configs(max_extra):
 
 
 def cfg_name(cfg):
-    return cfg["lang"][:2] + ":" + ";".join("%s%d%s" % (s["kind"][0], s["parent"], s["decl"][:3]) for s in cfg["scopes"])
+    return cfg["lang"][:2] + (".blk" if cfg.get("blk") else "") + ":" + ";".join("%s%d%s" % (s["kind"][0], s["parent"], s["decl"][:3]) for s in cfg["scopes"])
 
 
 # ------------------------------------------------------------------------------------------ rendering
@@ -97,12 +97,22 @@ def render_py(cfg):
             lines.append("%sdef f%d(%s):" % (pad, i, ", ".join(params)))
             body_ind = ind + 1
             p2 = "    " * body_ind
+            blk = cfg.get("blk")
             if s["decl"] in ("global", "nonlocal"):
                 lines.append("%s%s x" % (p2, s["decl"]))
-                lines.append("%sx = %d" % (p2, 100 + i))
+                if blk:     # the assignment sits one block deeper than the declaration statement
+                    lines.append("%sif k%d:" % (p2, i))
+                    lines.append("%s    x = %d" % (p2, 100 + i))
+                else:
+                    lines.append("%sx = %d" % (p2, 100 + i))
             elif s["decl"] == "assign":
-                decl_line[i] = len(lines)
-                lines.append("%sx = %d" % (p2, 100 + i))
+                if blk:
+                    lines.append("%sfor j%d in r%d:" % (p2, i, i))
+                    decl_line[i] = len(lines)
+                    lines.append("%s    x = %d" % (p2, 100 + i))
+                else:
+                    decl_line[i] = len(lines)
+                    lines.append("%sx = %d" % (p2, 100 + i))
         else:
             lines.append("%sclass K%d:" % (pad, i))
             body_ind = ind + 1
@@ -300,6 +310,14 @@ def import_projects():
          [("helper", 2), ("extra", 3)], [otheru])
     proj("two_sources", ["from core import helper", "from other import extra", "r = helper(1)", "x = extra(2)"], [F(2, "helper"), F(3, "extra")],
          [("helper", 2), ("extra", 3)], [otheru])
+    # the same module name in two directories: a file importing its sibling by bare name gets the sibling, not the namesake elsewhere
+    for order, (da, db) in (("first", ("alpha", "beta")), ("last", ("zeta", "beta"))):
+        files = {"%s/helpers.py" % da: "def load(a):\n    return a\n", "%s/helpers.py" % db: "def load(a):\n    return 0\n",
+                 "%s/app.py" % da: "from helpers import load\nr = load(1)\n", "%s/app.py" % db: "from helpers import load\nq = load(2)\n"}
+        units = [{"id": 1, "file": "%s/app.py" % da, "decls": [], "imports": [F(2, "load")]}, {"id": 2, "file": "%s/helpers.py" % da, "decls": ["load"], "imports": []},
+                 {"id": 3, "file": "%s/app.py" % db, "decls": [], "imports": [F(4, "load")]}, {"id": 4, "file": "%s/helpers.py" % db, "decls": ["load"], "imports": []}]
+        out.append({"name": "sibling_same_name:%s" % order, "kind": "sibling_same_name", "order": order, "files": files, "units": units,
+                    "reads": [{"unit": 1, "name": "load", "file": "%s/app.py" % da, "line": 1}, {"unit": 3, "name": "load", "file": "%s/app.py" % db, "line": 1}]})
     proj("missing_name", ["from core import nosuch", "r = nosuch(1)"], [F(2, "nosuch")], [("nosuch", 1)])
     proj("external_source", ["from os import getcwd", "r = getcwd()"], [F(0, "getcwd")], [("getcwd", 1)])
     return out
@@ -371,6 +389,8 @@ def run_imports(v, root):
 # ------------------------------------------------------------------------------------------ the check
 def universe(tier, seed):
     py = py_configs(3)
+    # the same configurations with every function-level assignment one block deeper than its scope's top level (binding does not depend on it)
+    py += [dict(c, blk=True) for c in py if any(s["kind"] == "function" and s["decl"] in ("assign", "global", "nonlocal") for s in c["scopes"]) and len(c["scopes"]) <= 3]
     js = js_configs(3)
     if tier == "thorough":
         return py + js
